@@ -4,6 +4,7 @@ spec (JSON string, the same for both classes):
   dx, dy       grid spacing [m]
   depth        bottom depth [m]
   size         half-width of the domain in cells (particles never reach the border)
+  w0           optional uniform vertical current [m/s] offered as forcing variable "w"
   flow         {"kind": "still"} |
                {"kind": "rot", "om0": rad/s, "eps": e, "nu": rad/s, "xc": .., "yc": ..}
                    angular rate om(t) = om0 * (1 + eps * sin(nu * t)), t seconds since start,
@@ -84,6 +85,8 @@ class Forcing(BaseForce):
         step = self.modules["time"].step
         U, V = self._uv(state.X, state.Y, step * self.dt)
         self.variables["u"], self.variables["v"] = U, V
+        if "w0" in self.s:      # a uniform vertical current [m/s]
+            self.variables["w"] = float(self.s["w0"]) + np.zeros_like(state.X)
         if r is not None:
             r.snapshot("forcing.post")
 
